@@ -1559,7 +1559,7 @@ def run(ck):
                        'per-strategy site listing is covered by the generic SiteRewriter model plus exhaustive (program, strategy, index) runs, not by a per-strategy proof']
     ok, _ = ck.build_static(['Props/C19.v', 'Cases/C19Cases.v'])
     if ok:
-        names = re.findall(r'Print Assumptions\s+([A-Za-z0-9_]+)', (ck.dir.parent.parent / 'coq' / 'Props' / 'C19.v').read_text())
+        names = re.findall(r'Print Assumptions\s+([A-Za-z0-9_]+)', (__import__('harness.common', fromlist=['COQ']).COQ / 'Props' / 'C19.v').read_text())
         ck.props('Props/C19.v', closed=tuple(names))
 
     im = Impl(ck)
